@@ -28,7 +28,7 @@ ScopedPool     == {"Value", "Type", "shared_ptr", "Sub"}
 MethodNamePool == {"f", "get", "print", "insert", "setValue", "test", "type", "lambda", "def", "at", "size",
                    "templatedMethod", "svg", "update"}
 StaticNamePool == {"Create", "create", "Identity", "global", "from", "g"}
-FuncNamePool   == {"fun", "load2D", "print", "lambda", "aGlobalFunction", "add", "tmpl"}
+FuncNamePool   == {"fun", "load2D", "print", "lambda", "aGlobalFunction", "add", "tmpl", "svg", "html"}   \* (display-hook names are special for METHODS only)
 ArgNamePool    == {"x", "y", "key", "value", "other", "t", "pose", "s", "n", "constant", "intx", "thisOne"}
 VarNamePool    == {"kGravity", "seed", "name", "status", "kMax"}
 EnumNamePool   == {"Kind", "Color", "Verbosity", "Status"}
